@@ -96,7 +96,10 @@ def search(rep: C.Report, tier: str, broken):
                 "Tplus/Tn": res.temperaturePlus / Tn, "Tminus/Tn": res.temperatureMinus / Tn, "widths*Tn": (np.asarray(res.wallWidths) * Tn).tolist(),
                 "gridTail*Tn": float(ws.grid.tailLengthInside) * Tn, "gridThickness*Tn": float(ws.grid.wallThickness) * Tn,
                 "initialWallThickness*Tn": float(ws.initialWallThickness) * Tn, "meanFreePath*Tn": float(ws.eom.meanFreePathScale) * Tn,
-                "momentumFalloff/Tn": float(ws.grid.momentumFalloffT) / Tn}
+                "momentumFalloff/Tn": float(ws.grid.momentumFalloffT) / Tn,
+                # dimensionful outputs of the setup: the temperature ranges over which the two phases were tabulated
+                "TMinHighT/Tn": float(m.thermodynamics.TMinHighT) / Tn, "TMaxHighT/Tn": float(m.thermodynamics.TMaxHighT) / Tn,
+                "TMinLowT/Tn": float(m.thermodynamics.TMinLowT) / Tn, "TMaxLowT/Tn": float(m.thermodynamics.TMaxLowT) / Tn}
     mbase = mrun(1.0)
     # the base model has T ~ 1; a GeV-like model (the same potential with T ~ 100) under factors up to 1e2 reaches 1e4
     for u in ((1e-2, 1e2, 3e3, 1e4) if tier == "quick" else (1e-2, 0.2, 13.0, 1e2, 1e3, 3e3, 1e4)):
@@ -111,7 +114,8 @@ def search(rep: C.Report, tier: str, broken):
         rep.count("manager runs")
         bad = []
         for q, t in (("vJ", 1e-6), ("vLTE", 2e-5), ("Tplus/Tn", 1e-3), ("Tminus/Tn", 1e-3), ("gridTail*Tn", 1e-12), ("gridThickness*Tn", 1e-12),
-                     ("initialWallThickness*Tn", 1e-12), ("meanFreePath*Tn", 1e-12), ("momentumFalloff/Tn", 1e-12)):
+                     ("initialWallThickness*Tn", 1e-12), ("meanFreePath*Tn", 1e-12), ("momentumFalloff/Tn", 1e-12),
+                     ("TMinHighT/Tn", 1e-4), ("TMaxHighT/Tn", 1e-4), ("TMinLowT/Tn", 1e-4), ("TMaxLowT/Tn", 1e-4)):
             if abs(mbase[q] - got[q]) > t * max(abs(mbase[q]), abs(got[q]), 1e-300):
                 bad.append(q)
         if mbase["success"] != got["success"] or mbase["type"] != got["type"] or mbase["vw"] is None or got["vw"] is None \
@@ -123,6 +127,36 @@ def search(rep: C.Report, tier: str, broken):
             rep.violation(f"WallGoManager results are not covariant under the unit factor {u}: {bad}",
                           {"unit_factor": u, "base": mbase, "scaled": got, "differing": bad,
                            "how": "harness/manager_common.new_manager(20, 1e-3, u=u).solveWall(settings())"}, finding_key=f"C07:manager:{','.join(sorted(bad))}")
+    # a symmetric phase that is not conformal (field-independent + hsq T0^2 T^2 term: cs^2(Tn) = 0.304): formulas that are only exact for
+    # cs^2 = 1/3 or Tn = 1 show up under a change of units
+    def hrun(u):
+        m = MC.new_manager(20, 1e-3, u=u, model_kwargs=dict(hsq=1.0))
+        res = m.solveWall(MC.settings())
+        Tn = 1.15 * u
+        return {"vw": res.wallVelocity, "success": res.success, "vLTE": float(m.wallSpeedLTE()), "vJ": float(m.hydrodynamics.vJ),
+                "Tplus/Tn": res.temperaturePlus / Tn, "Tminus/Tn": res.temperatureMinus / Tn, "widths*Tn": (np.asarray(res.wallWidths) * Tn).tolist(),
+                "TMaxHighT/Tn": float(m.thermodynamics.TMaxHighT) / Tn, "TMaxLowT/Tn": float(m.thermodynamics.TMaxLowT) / Tn}
+    hbase = hrun(1.0)
+    for u in ((1e2, 1e-2) if tier == "quick" else (1e2, 1e-2, 30.0, 0.2, 3e3)):
+        rep.case(key=("manager-nonconformal", u))
+        rep.count("manager runs, non-conformal symmetric phase")
+        try:
+            got = hrun(u)
+        except Exception as ex:  # noqa: BLE001
+            rep.violation(f"WallGoManager pipeline (non-conformal symmetric phase) fails under the unit factor {u} although it works for the factor 1",
+                          {"unit_factor": u, "error": f"{type(ex).__name__}: {str(ex)[:300]}", "base": hbase,
+                           "how": "harness/manager_common.new_manager(20, 1e-3, u=u, model_kwargs=dict(hsq=1.0)).solveWall(settings())"},
+                          finding_key="C07:manager-nonconformal:raises")
+            continue
+        bad = [q for q, t in (("vJ", 1e-6), ("vLTE", 2e-5), ("Tplus/Tn", 1e-3), ("Tminus/Tn", 1e-3), ("TMaxHighT/Tn", 1e-4), ("TMaxLowT/Tn", 1e-4))
+               if abs(hbase[q] - got[q]) > t * max(abs(hbase[q]), abs(got[q]))]
+        if hbase["success"] != got["success"] or got["vw"] is None or abs(hbase["vw"] - got["vw"]) > 2e-3:
+            bad.append("vw")
+        elif max(abs(a - b) for a, b in zip(hbase["widths*Tn"], got["widths*Tn"])) > 0.03 * max(hbase["widths*Tn"]):
+            bad.append("widths*Tn")
+        if bad:
+            rep.violation(f"WallGoManager results (non-conformal symmetric phase) are not covariant under the unit factor {u}: {bad}",
+                          {"unit_factor": u, "base": hbase, "scaled": got, "differing": bad}, finding_key=f"C07:manager-nonconformal:{','.join(sorted(bad))}")
     # the field variation scale given as ONE number instead of a one-entry list (both forms are documented): same results in every unit system
     for u in ((1e2, 3e3) if tier == "quick" else (1e-2, 13.0, 1e2, 3e3, 1e4)):
         rep.case(key=("manager-scalar-scale", u))
